@@ -185,6 +185,11 @@ fn main() {
             };
             std::process::exit(code);
         }
+        Some("survey") => {
+            evidence::init_stdout();
+            let tier = args.get(2).cloned().unwrap_or_else(|| "quick".into());
+            std::process::exit(sweep::survey(&tier));
+        }
         Some("gen") => {
             // print the input JSON of an instance code
             let inst = grammar::Inst::from_code(&args[2]).expect("bad code");
